@@ -106,7 +106,7 @@ func ptExpr(r *rng, d int) string {
 	if d <= 0 {
 		return ptAtom(r)
 	}
-	switch r.intn(27) {
+	switch r.intn(30) {
 	case 0, 1:
 		return ptAtom(r)
 	case 2, 3, 4, 5, 6:
@@ -161,8 +161,32 @@ func ptExpr(r *rng, d int) string {
 		return s
 	case 24:
 		return "for " + ptExpr(r, d-1) + " " + ptBlock(r, d)
+	case 25:
+		return pick(r, []string{"break", "continue", ".."})
+	case 26:
+		switch r.intn(5) {
+		case 0:
+			return pick(r, ptIdents) + " => " + ptExpr(r, d-1)
+		case 1:
+			return "(" + genParams(r) + ") => " + ptExpr(r, d-1)
+		case 2:
+			return "(" + genParams(r) + ") => " + ptBlock(r, d)
+		case 3:
+			return "(" + pick(r, ptIdents) + " => " + ptExpr(r, d-1) + ")" + pick(r, []string{"(1)", "", " + 1", "[0]"})
+		default:
+			return pick(r, ptIdents) + "=>" + ptBlock(r, d)
+		}
+	case 27:
+		n := r.intn(4)
+		parts := make([]string, n)
+		for i := range parts {
+			parts[i] = ptExpr(r, d-1) + pick(r, []string{":", ": ", " : "}) + ptExpr(r, d-1)
+		}
+		return "{" + strings.Join(parts, ", ") + "}"
+	case 28:
+		return "macro(" + genParams(r) + ") " + ptBlock(r, d)
 	default:
-		return pick(r, []string{"break", "continue"})
+		return ptCallee(r, d) + "[" + ptExpr(r, d-1) + ":]"
 	}
 }
 
@@ -271,6 +295,23 @@ func printTokensGen(tier string, r *rng, emit func(string)) {
 		src(s1 + "\nreturn " + s1)
 		src(s1 + "\nreturn")
 		src("a++ + " + s1 + "\nb--\n" + s1)
+		src("x => " + s1 + "\n" + s1)
+		src("(a, b) => {" + s1 + "\n" + s1 + "}")
+		src("() => " + s1)
+		src("f(x => " + s1 + ", (a, ..) => {" + s1 + "})")
+		src(s1 + "\n{" + s1 + ": " + s1 + ", \"k\": " + s1 + "}")
+		src("m = {" + s1 + ": x => " + s1 + "}\n" + s1)
+		src("macro(a){" + s1 + "}\n" + s1)
+		src("a[" + s1 + ":]\n" + s1)
+		src("a[" + s1 + ":][" + s1 + ":" + s1 + "]")
+	}
+	for _, p := range ptInfix {
+		src("a " + p + " x => x " + p + " b")
+		src("(x => x) " + p + " b")
+		src("x => (y => y " + p + " b)")
+		src("{a " + p + " b: c " + p + " d}")
+		src("{(a: b) " + p + " c: d}")
+		src("a[b " + p + " c:]")
 	}
 	n := 12000
 	if thorough {
